@@ -32,7 +32,7 @@ Definition g_disp_noslope (f f_ref d : NT N) : NT N := (((f / f_ref) * (f / f_re
 Definition g_disp_slope (f f_ref d s : NT N) : NT N :=
   let wavelength := (c_light / f) in
   (d + (s * (wavelength - (c_light / f_ref)))).
-Definition g_beta2 (f dispersion : NT N) : NT N := ((- ((c_light * dispersion) / (f * f))) / (#2 * npi)).
+Definition g_beta2 (f dispersion : NT N) : NT N := ((- (((c_light / f) * (c_light / f)) * dispersion)) / ((#2 * npi) * c_light)).
 (* Fiber.propagate / RamanFiber.propagate: attenuation applied before the NLI is computed; info.apply_attenuation_db *)
 Definition g_att_in_db (con_in att_in : NT N) : NT N := (con_in + att_in).
 Definition g_att_lin (attenuation_db : NT N) : NT N := (none / (db2lin attenuation_db)).
